@@ -758,6 +758,8 @@ def sweep(kinds=None, cls=None, fixtures_only=False):
                 docs.append((f"crafted:{label} ({ctx}).rtf", data))
         for f_, label, data_ in spine_variants():
             docs.append((f_, data_))
+        for name_, data_, _what in collision_documents():
+            docs.append((name_, data_))
         for rel, pred, _key in DAMAGED:
             f = os.path.join(RES, rel)
             if os.path.exists(f):
@@ -779,6 +781,47 @@ def sweep(kinds=None, cls=None, fixtures_only=False):
                     continue
                 out.append(dict(x, file=name.replace(REPO + "/", ""), path_given=path is not None))
     return out
+
+
+# ------------------------------------------------------- field-name collisions --
+def collision_documents():
+    """Documents whose own attribute / property NAMES equal field names of the result's metadata class (filename, file_path,
+    title ...): a reader that copies name -> field generically must not let the document overwrite what comes from the path."""
+    from sharepoint2text.parsing.extractors import data_types as dt
+    import dataclasses
+    names = [f.name for f in dataclasses.fields(dt.HtmlMetadata)]
+    metas = "".join(f'<meta name="{n}" content="doc-says-{n}.bin">' for n in names) + "".join(f'<meta name="{n.upper()}" content="DOC-SAYS-{n}">' for n in names[:5])
+    yield "collision.html", f"<html><head><title>T</title>{metas}</head><body><p>x</p></body></html>".encode("utf-8"), "html <meta name=FIELD> for every field of HtmlMetadata"
+    f = os.path.join(RES, "open_office/headings.odt")
+    if os.path.exists(f):
+        import re
+        onames = [x.name for x in dataclasses.fields(dt.OpenDocumentMetadata)]
+        extra = "".join(f'<meta:user-defined meta:name="{n}">doc-says-{n}</meta:user-defined>' for n in onames)
+        src = zipfile.ZipFile(f)
+        buf = io.BytesIO()
+        with zipfile.ZipFile(buf, "w", zipfile.ZIP_DEFLATED) as z:
+            for zi in src.infolist():
+                data = src.read(zi.filename)
+                if zi.filename == "meta.xml":
+                    data = re.sub(rb"(<office:meta[^>]*>)", lambda m: m.group(1) + extra.encode(), data, count=1)
+                z.writestr(zi, data)
+        yield "collision.odt", buf.getvalue(), "odt meta:user-defined named after every field of OpenDocumentMetadata"
+
+
+def find_field_collisions(ob):
+    for name, data, what in collision_documents():
+        if "html" in ob and not name.endswith(".html"):
+            continue
+        for path in ("some/dir/" + name, None):
+            try:
+                F = failures_of(data, name, path)
+            except Exception:  # noqa
+                continue
+            bad = [x for x in F if x["kind"] in ("path-metadata", "accessor-raises", "not-str", "shared-metadata")]
+            if bad:
+                return {"reproduced": True, "target": "sharepoint2text extractor", "inputs": {"document": what, "bytes": data.decode("utf-8", "replace")[:600] if name.endswith(".html") else name, "path": path},
+                        "expected": "file name / extension / folder derived from the path argument (all None without path)", "observed": f"{bad[0]['where']}: {bad[0]['detail']}"}
+    return {"reproduced": False, "note": "documents naming their properties after metadata fields: path metadata unaffected"}
 
 
 # ------------------------------------------------------------ unit numbers --
@@ -1013,6 +1056,10 @@ def find(req):
         if "mbox_email_extractor" in ob:
             return find_mbox(fn, k)
         return {"reproduced": False, "note": "no crafted input for this decode site"}
+    if "#store-indirect" in ob or ("#store-" in ob and "metadata" in (req.get("reason") or "")):
+        r = find_field_collisions(ob)
+        if r["reproduced"]:
+            return r
     if "/call-pre#" in ob and "-positive@" in ob and (hint or {}).get("kind") == "unit-number":
         return find_unit_numbers(ob)
     if "/call-pre#" in ob and any(t in ob for t in ("-positive@", "size_bytes-is-len-of-payload", "-invariants@", "#store-", "class-used-as-a-value",
@@ -1043,7 +1090,8 @@ def find(req):
     if "_odf_length_to_px" in ob or "length-helper" in ob or "OpenDocumentImage.get_metadata" in ob:
         return find_odf_length(ob.split("::")[1].split("/")[0])
     if "/metadata-copied" in ob or "metadata#" in ob:
-        return find_metadata(ob, (hint or {}).get("strings"))
+        r = find_metadata(ob, (hint or {}).get("strings"))
+        return r if r["reproduced"] else (find_field_collisions(ob) if find_field_collisions(ob)["reproduced"] else r)
     if "data_types.py::" in ob and ("/raises" in ob or "/ensures#returns" in ob):
         q = ob.split("::")[1].split("/")[0]
         if "." in q:
